@@ -1,5 +1,7 @@
 (* Extraction for the C07 correspondence driver (ExtrOcamlBasic only). *)
 From Coq Require Import Extraction ExtrOcamlBasic NArith ZArith List.
-From AHK Require Import Lib.ByteStr Model.Http Model.HttpWire.
+From AHK Require Import Lib.ByteStr Model.Http Model.HttpWire Model.HttpSecure.
+From AHK Require Model.Frame.
 Separate Extraction Z.of_N Z.to_N N.of_nat N.to_nat
-  hfeed hfeeds hinit int10 int16 ws_b ws_s title strip wf_wire render interp.
+  hfeed hfeeds hinit int10 int16 ws_b ws_s title strip wf_wire render interp
+  secure_feed secure_feeds sinit.
